@@ -76,10 +76,26 @@ pub fn check(mut ctx: Ctx, replay: Option<J>) -> ! {
     // every zone identifier of the zone database, and a few that are not
     let mut rng = Rng::new(ctx.seed);
     let zones: Vec<&str> = chrono_tz::TZ_VARIANTS.iter().map(|z| z.name()).collect();
-    let pick: Vec<&str> = if quick { zones.iter().step_by(7).cloned().collect() } else { zones.clone() };
+    // (quick: every seventh, and always the identifiers an implementation is tempted to treat specially: the names of
+    // UTC / GMT and their aliases, the fixed-offset and abbreviation-like ones)
+    const SPECIAL: [&str; 22] = [
+      "UTC", "Etc/UTC", "Zulu", "Etc/Zulu", "UCT", "Etc/UCT", "Universal", "Etc/Universal", "GMT", "Etc/GMT", "GMT0", "Etc/GMT0", "GMT+0", "GMT-0", "Etc/GMT+0", "Greenwich", "Etc/Greenwich",
+      "EST", "EST5EDT", "Etc/GMT-14", "Etc/GMT+12", "WET",
+    ];
+    let pick: Vec<&str> = if quick {
+      let mut p: Vec<&str> = zones.iter().step_by(7).cloned().collect();
+      for z in SPECIAL {
+        if zones.contains(&z) && !p.contains(&z) {
+          p.push(z);
+        }
+      }
+      p
+    } else {
+      zones.clone()
+    };
     for z in &pick {
       recs.push(run_case("time", &format!("10:20:30@{}", z), "known"));
-      if rng.chance(1, 4) {
+      if rng.chance(1, 4) || SPECIAL.contains(z) {
         recs.push(run_case("dt", &format!("2021-06-15T10:20:30.5@{}", z), "known"));
       }
     }
